@@ -156,6 +156,14 @@ fn main() {
     fin.assumptions = ex.assumptions;
     fin.extra.insert("reference_model_selftest_obligations".to_string(), serde_json::json!(selftest_n));
     fin.extra.insert(
+        "machine_build_actions_not_generated".to_string(),
+        serde_json::json!({
+            "operands_must_be_refused": machine::FILTERED_BUILDS[0].load(std::sync::atomic::Ordering::Relaxed),
+            "result_outside_the_compared_domain": machine::FILTERED_BUILDS[1].load(std::sync::atomic::Ordering::Relaxed),
+            "combination_unspecified": machine::FILTERED_BUILDS[2].load(std::sync::atomic::Ordering::Relaxed),
+        }),
+    );
+    fin.extra.insert(
         "reference_results_skipped_because_only_their_error_bound_overflowed".to_string(),
         serde_json::json!(ops::BOUND_OVERFLOWS.load(std::sync::atomic::Ordering::Relaxed)),
     );
